@@ -26,14 +26,20 @@ Inductive event := Through (q : path) | CreatedAncestors.
 
 Inductive flavour := Unix | Windows.
 
-Inductive errc := EExist | ENoEnt | ENotDir | EIsDir | ENotEmpty | EUnexpectedContinue | EUnknownKind | EInjected.
+Inductive errc := EExist | ENoEnt | ENotDir | EIsDir | ENotEmpty | EUnexpectedContinue | EUnknownKind | EInjected | ERefused | EWrite | EKilled.
+
+(* bookkeeping of file transfers: the transfer whose earlier chunk failed (failed_file_receive), and
+   the write fault plan: which write_all calls (counted from 0) report a failure *)
+Record dext := mkX { x_failed : option path; x_wfail : list N; x_nwrites : N }.
+Definition dext0 : dext := mkX None [] 0.
 
 Record dstate := mkD {
   d_fs : fs;
   d_anc : anc;
   d_tick : N;
   d_open : option path;          (* in_progress_file_receive *)
-  d_events : list event }.
+  d_events : list event;
+  d_x : dext }.
 
 (* ---- path resolution of everything above the final component ---- *)
 Inductive pres := PROk | PRThrough (q : path) | PRErr (e : errc).
@@ -68,10 +74,17 @@ Definition resolve_above (st : dstate) (p : path) : pres :=
   | _ => check_above (d_fs st) [] p
   end.
 
-Definition with_fs (st : dstate) (f : fs) : dstate := mkD f (d_anc st) (d_tick st) (d_open st) (d_events st).
-Definition with_event (st : dstate) (e : event) : dstate := mkD (d_fs st) (d_anc st) (d_tick st) (d_open st) (d_events st ++ [e]).
-Definition with_open (st : dstate) (o : option path) : dstate := mkD (d_fs st) (d_anc st) (d_tick st) o (d_events st).
-Definition tick (st : dstate) : dstate := mkD (d_fs st) (d_anc st) (d_tick st + 1) (d_open st) (d_events st).
+Definition with_fs (st : dstate) (f : fs) : dstate := mkD f (d_anc st) (d_tick st) (d_open st) (d_events st) (d_x st).
+Definition with_event (st : dstate) (e : event) : dstate := mkD (d_fs st) (d_anc st) (d_tick st) (d_open st) (d_events st ++ [e]) (d_x st).
+Definition with_open (st : dstate) (o : option path) : dstate := mkD (d_fs st) (d_anc st) (d_tick st) o (d_events st) (d_x st).
+Definition tick (st : dstate) : dstate := mkD (d_fs st) (d_anc st) (d_tick st + 1) (d_open st) (d_events st) (d_x st).
+Definition with_failed (st : dstate) (o : option path) : dstate :=
+  mkD (d_fs st) (d_anc st) (d_tick st) (d_open st) (d_events st) (mkX o (x_wfail (d_x st)) (x_nwrites (d_x st))).
+Definition count_write (st : dstate) : dstate :=
+  mkD (d_fs st) (d_anc st) (d_tick st) (d_open st) (d_events st) (mkX (x_failed (d_x st)) (x_wfail (d_x st)) (x_nwrites (d_x st) + 1)).
+Definition write_fails (st : dstate) : bool := existsb (N.eqb (x_nwrites (d_x st))) (x_wfail (d_x st)).
+Definition refuses (st : dstate) (p : path) : bool :=
+  match x_failed (d_x st) with Some q => path_eqb q p | None => false end.
 
 (* link text written by CreateSymlink (doer.rs:719-722): Normalized text gets the platform separator *)
 Definition backslash : ascii := ascii_of_nat 92.
@@ -121,7 +134,7 @@ Definition doer_exec (fl : flavour) (st : dstate) (c : cmd) : dstate * option er
   | CCreateRootAncestors =>
       match d_anc st with
       | AncOk => (st, None)
-      | AncMissing => (with_event (mkD (d_fs st) AncOk (d_tick st) (d_open st) (d_events st)) CreatedAncestors, None)
+      | AncMissing => (with_event (mkD (d_fs st) AncOk (d_tick st) (d_open st) (d_events st) (d_x st)) CreatedAncestors, None)
       | AncBlocked => (st, Some ENotDir)
       end
   | CCreateFolder p =>
@@ -182,13 +195,20 @@ Definition doer_exec (fl : flavour) (st : dstate) (c : cmd) : dstate * option er
         end
       end
   | CCreateOrUpdateFile p data set_mt more =>
-      match open_for_write st p with
-      | OpErr e => (with_open st None, Some e)
-      | OpOutside st1 => (with_open st1 (if more then Some p else None), None)
+      (* the rest of a transfer whose earlier chunk failed is refused (until its last chunk has passed) *)
+      if refuses st p then (with_failed st (if more then Some p else None), Some ERefused)
+      else
+      let st0 := with_failed st (if more then Some p else None) in     (* if this chunk fails, refuse the rest *)
+      match open_for_write st0 p with
+      | OpErr e => (with_open st0 None, Some e)
+      | OpOutside st1 => (with_failed (with_open st1 (if more then Some p else None)) None, None)
       | OpFile st1 =>
-          (* write_all appends; the handle is remembered when more chunks follow; set_file_mtime last *)
-          let st2 := with_open (write_chunk st1 p data) (if more then Some p else None) in
-          (match set_mt with Some t => stamp_file st2 p t | None => st2 end, None)
+          (* write_all appends; a failing write leaves what it wrote, closes the handle and keeps the refusal *)
+          let stw := write_chunk (count_write st1) p data in
+          if write_fails st1 then (with_open stw None, Some EWrite)
+          else
+            let st2 := with_failed (with_open stw (if more then Some p else None)) None in
+            (match set_mt with Some t => stamp_file st2 p t | None => st2 end, None)
       end
   end.
 
